@@ -37,7 +37,7 @@ ARG_MC_REUSE = {
     'C09': dict(decls=[18], policy=['opts', 'cmds', 'unknown'], popts=['<<>>', '<<"HelpFlag">>'], handlers=['none'], maxlen=(2, 3), thorough_decls=[18, 13], premode='cmds'),
 }
 # random direction: (trees, scenarios per tree) quick / thorough
-ARG_RANDOM = {'quick': (120, 60), 'thorough': (1500, 80)}
+ARG_RANDOM = {'quick': (120, 60), 'thorough': (3000, 80)}
 
 ARG_DOMKEY = {'C11': 'd11', 'C01': 'd01', 'C02': 'd02', 'C03': 'd03', 'C04': 'd04', 'C06': 'd06', 'C07': 'd07', 'C08': 'd08', 'C09': 'd09', 'C10': 'd10'}
 ARG_PROPS = ['C01', 'C02', 'C03', 'C04', 'C06', 'C07', 'C08', 'C09', 'C10', 'C11', 'C15', 'DRIFT', 'MSG']
@@ -449,7 +449,7 @@ class ClosestFamily(SimpleFamily):
         return cfg, dict(alpha=alpha, maxl=maxl), NCPU
 
     def gen_args(self, ctx):
-        n = 300000 if ctx.tier == 'thorough' else 20000
+        n = 600000 if ctx.tier == 'thorough' else 20000
         return ['gen-closest', '-seed', ctx.seed, '-n', n, '-scen', 'r_scen.ndjson']
 
 
@@ -465,7 +465,7 @@ SESSION = {
     'C12': dict(mc='MC_Ini', mode='trip', decls=([11, 8], [1, 2, 8, 9, 11]), maxlines=(2, 2), kind='roundtrip', dom='rt', invs='TripInvariant'),
     'C05': dict(mc='MC_Sources', mode='', decls=([12], [12, 11]), maxlines=(0, 0), kind='sources', dom='src', invs='Precedence'),
 }
-SESSION_RANDOM = {'quick': (60, 50), 'thorough': (600, 100)}
+SESSION_RANDOM = {'quick': (60, 50), 'thorough': (2500, 100)}
 
 
 class SessionFamily:
@@ -858,7 +858,7 @@ class HelpFamily(SessionFamily):
         return states, gen, (scns.tolist() if isinstance(scns, ScnList) else scns) + extra, d, dict(module='MC_Help', decls=decls, widths='0..%d' % mw)
 
     def random_part(self, ctx, prop, kind, repeat=1):
-        nt, per = (150, 30) if ctx.tier == 'quick' else (1500, 40)
+        nt, per = (150, 30) if ctx.tier == 'quick' else (4000, 40)
         ctx.vh('gen-help', '-seed', ctx.seed, '-ntrees', nt, '-per', per, '-repeat', repeat, '-trees', 'r_trees.ndjson', '-decls', 'r_decls.ndjson', '-scen', 'r_scen.ndjson')
         ctx.vh('run', '-trees', 'r_trees.ndjson', '-scen', 'r_scen.ndjson', '-out', 'r_rec.ndjson', '-workers', NCPU)
         rrec = os.path.join(ctx.work, 'r_rec.ndjson')
@@ -911,7 +911,7 @@ class DeclFamily(SimpleFamily):
         return cfg, dict(maxlen=ml, maxbody=mb), NCPU
 
     def gen_args(self, ctx):
-        n = 300000 if ctx.tier == 'thorough' else 20000
+        n = 600000 if ctx.tier == 'thorough' else 20000
         return ['gen-decl', '-seed', ctx.seed, '-n', n, '-scen', 'r_scen.ndjson']
 
 
